@@ -78,6 +78,12 @@ func parseDocker(raw string, kind Kind, first bool) (*URL, error) {
 		}
 	}
 
+	// Reject usernames that begin with a dash, because they would be
+	// interpreted as command line options by Docker.
+	if strings.HasPrefix(username, "-") {
+		return nil, errors.New("username begins with '-'")
+	}
+
 	// Split what remains into the container and the path (or forwarding
 	// endpoint, depending on the URL kind). Ideally we'd want to be a bit more
 	// stringent here about what characters we accept in container names,
@@ -94,6 +100,8 @@ func parseDocker(raw string, kind Kind, first bool) (*URL, error) {
 	}
 	if container == "" {
 		return nil, errors.New("empty container name")
+	} else if strings.HasPrefix(container, "-") {
+		return nil, errors.New("container name begins with '-'")
 	} else if path == "" {
 		if kind == Kind_Synchronization {
 			return nil, errors.New("missing path")
